@@ -77,14 +77,106 @@ def bib_text(db):
         out.append('@%s%s%s,\n  %s\n%s\n' % (['misc', 'Misc', 'MISC'][i % 3], o, k, ',\n  '.join(fields), c))
     return '\n'.join(out)
 
-def _ci_out(cites, v):
-    """outside the property's quantifier (inconsistently spelled citation lists) only the letter
-    case of emitted keys is left open: compare lower-cased"""
-    if consistent(cites):
+# ---------------------------------------------------------------------------------------------
+# keys beyond ASCII.  The model compares keys through Base/PyStr.lower (ASCII).  A case with a non-ASCII key
+# is given to the model with every key replaced by an ASCII stand-in built from the per-case table
+# key -> key.lower() that PYTHON computes (as C13 does with tbl_lower): keys with the same str.lower() get
+# stand-ins that differ only in letter case, keys with different str.lower() get stand-ins that differ
+# otherwise; '*' and '' stand for themselves.  The implementation always runs on the real keys; its outputs are
+# translated to the stand-ins for the comparison and back for the oracle (which uses str.lower on real keys).
+_ENC = [None]
+def _all_keys(fn, a):
+    ks = []
+    for e in a[0]:
+        ks.append(S(e[0]))
+        if e[1]:
+            ks.append(S(e[1][0]))
+    cl = a[1]
+    if fn in (4, 5, 7):
+        cl = a[1][0] if a[1] else []
+    return ks + [S(k) for k in cl]
+
+def enc_map(fn, a):
+    ks = _all_keys(fn, a)
+    if all(k.isascii() for k in ks):
+        return None
+    classes = {}; m = {}
+    for k in ks:
+        if k in m:
+            continue
+        if k in ('*', ''):
+            m[k] = k; continue
+        c = classes.setdefault(k.lower(), [len(classes), 0])
+        j = c[1]; c[1] += 1
+        m[k] = 'u%d' % c[0] + ''.join(ch.upper() if (j >> b) & 1 else ch for b, ch in enumerate('abcdefgh'))
+    return m
+
+def model_arg(fn, arg):
+    m = enc_map(fn, arg)
+    if m is None:
+        return arg
+    e = lambda k: norm(m[S(k)])
+    db = [[e(x[0]), [e(x[1][0])] if x[1] else []] for x in arg[0]]
+    if fn in (4, 5, 7):
+        cl = [[e(k) for k in arg[1][0]]] if arg[1] else []
+    else:
+        cl = [e(k) for k in arg[1]]
+    return [db, cl] + list(arg[2:])
+
+def _enc_out(v):
+    m = _ENC[0]
+    if m is None:
         return v
     if isinstance(v, str):
+        return m.get(v, v)
+    if isinstance(v, list):
+        return [_enc_out(x) for x in v]
+    return v
+
+def _enc1(k):
+    m = _ENC[0]
+    return k if m is None else m.get(k, k)
+
+def _wrap(fn, impl):
+    def w(a):
+        _ENC[0] = enc_map(fn, a)
+        try:
+            return impl(a)
+        finally:
+            _ENC[0] = None
+    return w
+
+def decode_out(fn, arg, out):
+    """stand-ins in an implementation output -> the real keys (lower-cased stand-ins -> a key of that class)"""
+    m = enc_map(fn, arg)
+    if m is None:
+        return out
+    dec = {}
+    for k, e in m.items():
+        dec.setdefault(e.lower(), k.lower())
+    for k, e in m.items():
+        dec[e] = k
+    def walk(v):
+        if isinstance(v, list):
+            if v and all(isinstance(x, int) for x in v):
+                t = S(v)
+                return norm(dec[t]) if t in dec else v
+            return [walk(x) for x in v]
+        return v
+    return walk(out)
+
+def _ci_out(cites, v, _top=True):
+    """outside the property's quantifier (inconsistently spelled citation lists) only the letter
+    case of emitted keys is left open: compare lower-cased"""
+    if _top:
+        v = _enc_out(v)
+        if consistent(cites):
+            return v
+    if isinstance(v, str):
         return low(v)
-    return [_ci_out(cites, x) for x in v]
+    if isinstance(v, list):
+        return [_ci_out(cites, x, False) for x in v]
+    return v
 
 def _entries_of(data):
     return [[k, [] if 'crossref' not in e.fields else [e.fields['crossref']]] for k, e in data.entries.items()]
@@ -245,7 +337,7 @@ def impl_bibtex_engine(a):
             keys.append(parts[0])
             pos = [int(v) for v in parts[1:] if v != '-']
             seen_pos.append(pos)
-            seen_keys.append(sorted(set(low(db[i][0]) for i in pos)))
+            seen_keys.append(sorted(set(_enc1(db[i][0]).lower() for i in pos)))
         # [cite$ of every entry, reports, per entry the keys of the entries whose fields it sees (compared
         #  with the model), the same as file positions (for the oracle only)]
         return _ci_out(cites, [keys, _reports(cap, _cands(db, cites)), seen_keys]) + [seen_pos]
@@ -281,6 +373,8 @@ FUNCS = {
     10: ('unfiltered parse_string + add_extra_citations + selection', impl_select_unfiltered, ('T', DB, CITES, 'N')),
 }
 
+FUNCS = dict((fn, (v[0], _wrap(fn, v[1]), v[2])) for fn, v in FUNCS.items())
+
 def canon(fn, r):
     """reports: multiset of mentioned-key sets (model: [tag, keys]); error class / line ignored;
     fn 9: the per-entry ancestor lists are compared as sets; the position lists (oracle only) dropped"""
@@ -303,8 +397,6 @@ def canon(fn, r):
         out.append([sorted(set(tuple(k) for k in ks)) for ks in v[2]])
     return [0, out]
 
-def model_arg(fn, arg):
-    return arg
 
 # ---------------------------------------------------------------------------------------------
 # the property, in plain Python (independent of pybtex): which entries, in which order
@@ -463,6 +555,7 @@ def _check_selection(db, cites, m, keys, reps, filtered, label):
     return None
 
 def oracle(fn, arg, out):
+    out = decode_out(fn, arg, out)
     if not (isinstance(out, list) and out) or out[0] == 2:
         return 'foreign (non-pybtex) exception in %s' % FUNCS[fn][0]
     db = _db(arg[0])
@@ -698,12 +791,13 @@ def gen(tier, rng):
                     yield ('exhaustive', 3, [db, cl, m])
                 if thorough or k % 2 == 0 or len(cl) <= 2:
                     yield ('exhaustive', 6, [db, cl, m, 0])
-                if k % 4 == 0 or (thorough and k % 2 == 0):
+                if k % 8 == 0 or (thorough and k % 2 == 0):
                     yield ('exhaustive', 7, [db, [cl], m])
+                if k % 8 == 4 or (thorough and k % 2 == 0):
                     yield ('exhaustive', 10, [db, cl, m])
-                if '*' not in cl and (thorough or k % 3 == 0):
+                if '*' not in cl and (thorough or k % 6 == 0):
                     yield ('exhaustive', 2, [db, cl, m])
-            if len(cl) <= 2 or (len(cl) == 3 and (thorough or j % 2 == 0)):
+            if len(cl) <= 2 or (len(cl) == 3 and (thorough or j % 4 == 0)):
                 yield ('exhaustive', 4, [db, [cl]])
                 if thorough or len(cl) <= 2:
                     yield ('exhaustive', 5, [db, [cl]])
@@ -751,6 +845,47 @@ def gen(tier, rng):
                                 yield ('chains', 10, [db, cl, m])
                             if (jc + m) % (4 if thorough else 12) == 0:
                                 yield ('chains', 8, [db, cl, m, 0])
+    # (a'') keys beyond ASCII: pairs that str.lower() keeps apart although str.casefold() / NFKC would merge them
+    # (they are DIFFERENT entries), and pairs that str.lower() identifies (they are the SAME entry)
+    APART = [('weiss2019', 'wei\u00df2019'), ('\u017f1', 's1'), ('\u03c22', '\u03c32'), ('\ufb01x', 'fix'), ('A\u03a3', 'a\u03c3')]
+    SAME = [('\u00c91', '\u00e91'), ('\u03a32', '\u03c32'), ('\u212a3', 'k3'), ('STRASSE', 'strasse')]
+    ju = 0
+    for (a, b), same in [(p_, False) for p_ in APART] + [(p_, True) for p_ in SAME]:
+        dbs_u = [[[a, []], [b, []]], [[b, []], [a, []]],
+                 [[a, []], [b, [a]]], [[a, [b]], [b, []]],
+                 [[a, []], [b, []], ['kid', [b]]], [['kid', [a]], ['Kid2', [b]], [a, []], [b, []]]]
+        cls_u = [[], [a], [b], ['*'], [a, b], [b, a], [a, '*'], ['*', b], ['kid'], ['kid', 'Kid2'], ['kid', a], [b, 'kid', '*']]
+        for db in dbs_u:
+            for cl in cls_u:
+                ju += 1
+                yield ('unicode', 1, [db, cl])
+                yield ('unicode', 4, [db, [cl]])
+                yield ('unicode', 5, [db, [cl]])
+                for m in (1, 2):
+                    yield ('unicode', 3, [db, cl, m])
+                    yield ('unicode', 6, [db, cl, m, 0])
+                    yield ('unicode', 10, [db, cl, m])
+                    if (ju + m) % 2 == 0 or thorough:
+                        yield ('unicode', 9, [db, cl, m, 0])
+                        yield ('unicode', 7, [db, [cl], m])
+                    if (ju + m) % (5 if thorough else 24) == 0:
+                        yield ('unicode', 8, [db, cl, m, 0])
+                if ju % 6 == 0:
+                    yield ('unicode', 6, [db, cl, 1, 1])
+                    yield ('unicode', 9, [db, cl, 1, 1])
+    upool = [x for p_ in APART + SAME for x in p_] + ['k1', 'K1', 'Q']
+    for i in range(300 if not thorough else 3000):
+        n = rng.randint(1, 5)
+        keys = [rng.choice(upool) for _ in range(n)]
+        db = [[k, [] if rng.random() < 0.5 else [rng.choice(keys + upool[:4])]] for k in keys]
+        cl = [rng.choice(keys + upool + ['*']) for _ in range(rng.randint(0, 4))]
+        m = rng.choice([1, 1, 2])
+        yield ('unicode', 3, [db, cl, m])
+        yield ('unicode', 6, [db, cl, m, 0])
+        yield ('unicode', 5, [db, [cl]])
+        yield ('unicode', 10, [db, cl, m])
+        if i % 3 == 0:
+            yield ('unicode', 9, [db, cl, m, 0])
     # (b) structured random: larger databases, repeated keys, mixed-case spellings
     def rkey():
         base = rng.choice(['k%d' % rng.randint(1, 9), 'Key%d' % rng.randint(1, 5), rng.choice(['knuth:84', 'Lamport-86', 'x.y', 'ab', 'Q'])])
@@ -826,7 +961,7 @@ def gen(tier, rng):
         if all(k and k != '' for k, _ in db):
             yield ('malformed', 6, [db, cl, m, 0])
 
-RULE = ('chains: cross-reference chains of length 0..3 (every file order, every subset of the chain cited, with/without \'*\', with/without a sibling, min_crossrefs 1..3) through the bibtex parser with wanted_entries, command_read (incl. the keys left in bib_data.entries) and both engines end to end; exhaustive: every database of N <= 3 entries (keys x1, Y2, z3; each entry with crossref in {none, X1, Y2, Z3, dangling q9}) x every '
+RULE = ('unicode: database keys and citations from pairs that str.lower() keeps apart but casefold would merge (ss/\u00df, \u017f/s, \u03c2/\u03c3, \ufb01/fi) and pairs that str.lower() identifies (\u00c9/\u00e9, \u03a3/\u03c3, Kelvin sign/k), through every function; chains: cross-reference chains of length 0..3 (every file order, every subset of the chain cited, with/without \'*\', with/without a sibling, min_crossrefs 1..3) through the bibtex parser with wanted_entries, command_read (incl. the keys left in bib_data.entries) and both engines end to end; exhaustive: every database of N <= 3 entries (keys x1, Y2, z3; each entry with crossref in {none, X1, Y2, Z3, dangling q9}) x every '
         'citation list up to the length bound over {X1, x1, y2, z3, unknown q9, *} x min_crossrefs 1..min(N,2) (quick) / 1..N (thorough), through add_extra_citations, '
         'Interpreter.command_read (parse-time filtering) and, strided, format_bibliography / unfiltered selection / '
         '_get_crossreferenced_citations; the same databases x wanted lists through BibliographyData(entries, wanted_entries) and the '
@@ -839,7 +974,7 @@ EXHAUSTIVE = {'quick': 'all databases with N <= 3 entries x crossref in {none, e
 TRUSTED_BASE = ['modelled (not verified) code: pybtex/database/__init__.py 65-105,179-314 (BibliographyData), pybtex/utils.py CaseInsensitiveSet / OrderedCaseInsensitiveDict, '
                 'pybtex/bibtex/interpreter.py 284-306, pybtex/style/formatting/__init__.py 75-91, pybtex/__init__.py 112-165; the .bib syntax layer is not modelled: a file is the list of its (key, crossref) entries '
                 '(the harness renders each database to .bib text with varied delimiters / field-name case and runs the real parser)']
-ASSUMPTIONS = ['str.lower is modelled on ASCII keys (non-ASCII letters in keys are outside the claimed domain, DESIGN.md 2.2)']
+ASSUMPTIONS = ['the model compares keys through an ASCII lower(); a case with non-ASCII keys is given to the model with ASCII stand-ins built from the per-case table key -> str.lower(key) computed by Python (same classes, same spellings up to renaming); the oracle uses str.lower on the real keys; the theorems use only that lower-equality is an equivalence']
 PARTIAL = ['Entry._find_field is modelled only as the set of entries walked (chain); field values are C14\'s business',
            'the theorems are about the model of BibliographyData / command_read / format_bibliography; the .bib syntax layer, strict error mode (first report raised) and both engines end to end (\\bibitem / cite$ order) are covered by the correspondence run and the oracle only',
            'filtered_equals_unfiltered / filtered_reports_equal hold under parents_follow_children; without it the statement is refuted (filtered_parent_first_refuted, known finding F13)',
